@@ -24,7 +24,7 @@ def gen_case(seed, k, cap):
         ts += ["PartialEq"] + (["Eq"] if rng.random() < 0.5 else [])
     ts += rng.sample(["Debug", "Clone", "Default"], rng.randint(0, 1))
     rng.shuffle(ts)
-    td = G.random_type(rng, ts, G.Opts(p_attr=0.9, max_fields=4, max_variants=4, p_partial=0.0, lawful_only=True, bounds=False, p_repr=0.5, all_method=rng.random() < 0.1))
+    td = G.random_type(rng, ts, G.Opts(p_attr=0.9, max_fields=4, max_variants=4, p_partial=0.0, lawful_only=True, bounds=False, p_repr=0.5, all_method=rng.random() < 0.1, p_packed=0.5))
     if with_eq:
         # same ignore / method choices for PartialEq as for Hash (hash_alt ~ eq_mod2: both look at a % 2)
         for _, f in td.all_fields():
